@@ -109,7 +109,7 @@ func universe(rng interface{ IntN(int) int }, relay peer.ID, staggered bool) []a
 		{Name: "wt-pub", Addr: "/ip4/1.2.3.6/udp/4001/quic-v1/webtransport", Class: "must"},
 		{Name: "ws-pub", Addr: "/ip4/1.2.3.7/tcp/4002/ws", Class: "must", FD: true},
 		{Name: "tcp6-pub", Addr: "/ip6/2001:db9::7/tcp/4001", Class: "must", FD: true},
-		{Name: "relay", Addr: fmt.Sprintf("/ip4/9.9.9.9/tcp/4001/p2p/%s/p2p-circuit", relay), Class: "must", Relay: true, FD: true},
+		{Name: "relay", Addr: fmt.Sprintf("/ip4/9.9.9.9/tcp/4001/p2p/%s/p2p-circuit", relay), Class: "must", Relay: true}, // relay dials take no fd token: the relay transport's own dial to the relay does
 		{Name: "no-transport", Addr: "/ip4/1.2.3.8/udp/4001", Class: "filtered"},
 		{Name: "wt-same-tuple-as-quic", Addr: "/ip4/1.2.3.5/udp/4001/quic-v1/webtransport", Class: "optional"},
 		{Name: "own-listen-addr", Addr: "/ip4/7.7.7.7/tcp/4001", Class: "filtered", FD: true},
@@ -438,7 +438,7 @@ func check(sc *scenario, res *result) (out []finding, st map[string]int) {
 		active := 0
 		epoch := 0
 		dialled := map[string]int{}
-		type inflight struct{ epoch int }
+		startEpoch := map[string][]int{}
 		for _, e := range res.Events {
 			switch e.Kind {
 			case "call":
@@ -450,14 +450,21 @@ func check(sc *scenario, res *result) (out []finding, st map[string]int) {
 			case "ret":
 				active--
 			case "dial.start":
+				startEpoch[e.Addr] = append(startEpoch[e.Addr], epoch)
 				dialled[e.Addr]++
 				// "While any caller is waiting, each address of the peer is handed to a transport at most once"
 				if dialled[e.Addr] > 1 && active > 0 {
 					out = append(out, finding{"address-dialled-twice-while-callers-waiting", fmt.Sprintf("%s was handed to a transport %d times during one waiting epoch", e.Addr, dialled[e.Addr])})
 				}
 			case "dial.end":
+				// a dial that ends now may belong to an earlier epoch (a transport that reacts late)
+				mine := true
+				if q := startEpoch[e.Addr]; len(q) > 0 {
+					mine = q[0] == epoch
+					startEpoch[e.Addr] = q[1:]
+				}
 				// "released promptly without cancelling the shared attempt for the others"
-				if strings.Contains(e.Info, "context canceled") && active > 0 && stillWaitingAfter(res.Events, e.T) {
+				if mine && strings.Contains(e.Info, "context canceled") && active > 0 && stillWaitingAfter(res.Events, e.T) {
 					out = append(out, finding{"shared-attempt-cancelled-while-callers-waiting", fmt.Sprintf("the dial of %s was cancelled while a caller was (and stayed) waiting", e.Addr)})
 				}
 			}
